@@ -1,5 +1,6 @@
 from __future__ import annotations
 
+import math
 import weakref
 from collections.abc import (
     AsyncGenerator,
@@ -255,5 +256,7 @@ async def wait_event(
         any instance of the containing class
 
     """
-    async with stream_events(signals, filter) as stream:
+    # The filter is applied on the receiving side, so events that don't pass it take up
+    # queue space too; a bounded queue could drop the very event being waited for
+    async with stream_events(signals, filter, max_queue_size=math.inf) as stream:
         return await stream.__anext__()
